@@ -33,11 +33,23 @@
       (f = decoded HFSTS6, b = decoded MSR 13Ah, v = 1 Boot Guard 1.0 / 2 CBnT);
       [bpm_ok]: none of the conditions SaneBPMSecurityProps names holds;
       [insecure_alg a]: SHA1, Null or unset.
+    - A platform as the status readers see it: [l : list pcidev], the visible PCI devices IN
+      ENUMERATION ORDER, each [mkdev bus device function cfg] with [cfg] the six dwords at the
+      config offsets of HFSTS1..6 ([None]: config space unreadable); [ee]: the enumeration
+      reports an error behind the last device.  [is_me d]: device number 16 or 22, function
+      0 - the ME's address as me.go names it; [no_me l]: no such device in [l];
+      [l = pre ++ d :: post] with [no_me pre] and [is_me d = true]: [d] is the FIRST such
+      device in enumeration order - the ME (the walk of hfsts.go asks to stop there; sysfs
+      enumerates bus 0 first).  [read_hfsts n l ee]: readHFSTSFromPCIConfigSpace ([HErr] or
+      the dword); [hfsts_word n d]: the HFSTSn register of device [d];
+      [sane_me_plat] / [validate_me_plat]: the verdicts fed from GetHFSTS6 (and MSR 13Ah) of
+      the platform; [test_*]: the pkg/test entry points BootGuardSaneMEConfig /
+      BootGuardValidateME.
     Suffixes: [_partial] needs the extra hypothesis named in its comment; [_refuted] is a
     closed witness that the statement as written in the property fails on the code (listed in
     KNOWN_FINDINGS.json under the id given in the comment).  Theorems about "the former
     witness" of a repaired finding evaluate the model on the input that used to fail. *)
-From CSS Require Import Lib.Base Model.Verdicts Proofs.Verdicts.
+From CSS Require Import Lib.Base Model.Verdicts Proofs.Verdicts Proofs.VerdictsPlatform.
 Local Open Scope Z_scope.
 
 (** * 1. FIT range checks against exact interval arithmetic *)
@@ -445,6 +457,99 @@ Theorem C05_SaneME_raw_failclosed : forall strict v hfsts6 msr,
 Proof. exact SaneME_raw_failclosed. Qed.
 Print Assumptions C05_SaneME_raw_failclosed.
 
+(** ** which device the status comes from (hfsts.go) *)
+
+(** The status word is the register of the FIRST device with the ME's device/function number
+    in enumeration order: the devices behind it - further look-alikes included, readable or
+    not - and an enumeration error behind it have no influence. *)
+Theorem C05_HFSTS_first_match : forall n pre d post ee, 1 <= n <= 6 -> no_me pre -> is_me d = true ->
+  read_hfsts n (pre ++ d :: post) ee =
+  match hfsts_word n d with Some w => HWord w | None => HErr end.
+Proof. exact HFSTS_first_match. Qed.
+Print Assumptions C05_HFSTS_first_match.
+
+(** devices with another device or function number can be added or removed anywhere *)
+Theorem C05_HFSTS_other_devices_irrelevant : forall n l ee,
+  read_hfsts n l ee = read_hfsts n (filter is_me l) ee.
+Proof. exact HFSTS_other_devices_irrelevant. Qed.
+Print Assumptions C05_HFSTS_other_devices_irrelevant.
+
+(** a delivered word is the register of that first device - or the made-up 0 of a platform
+    without ME device (finding C05-HFSTS-no-ME-device, below) *)
+Theorem C05_HFSTS_word_origin : forall n l ee w, read_hfsts n l ee = HWord w ->
+  (exists pre d post, l = pre ++ d :: post /\ no_me pre /\ is_me d = true /\ hfsts_word n d = Some w) \/
+  (no_me l /\ ee = false /\ w = 0).
+Proof. exact HFSTS_word_origin. Qed.
+Print Assumptions C05_HFSTS_word_origin.
+
+(** the code as it is on a platform without ME device *)
+Theorem C05_HFSTS_no_device : forall n l ee, 1 <= n <= 6 -> no_me l ->
+  read_hfsts n l ee = if ee then HErr else HWord 0.
+Proof. exact HFSTS_no_device. Qed.
+Print Assumptions C05_HFSTS_no_device.
+
+(** (Strict)SaneMEBootGuardProvisioning fed from the platform: a success means that there is
+    an ME device, that the first one in enumeration order could be read, and that none of the
+    named conditions holds for ITS HFSTS6; for every platform, every MSR value. *)
+Theorem C05_SaneME_platform_failclosed : forall strict v l ee msr,
+  sane_me_plat strict v l ee msr = good ->
+  exists pre d post w, l = pre ++ d :: post /\ no_me pre /\ is_me d = true /\
+    hfsts_word 6 d = Some w /\
+    ~ me_disqualified v (decode_hfsts6 w) (decode_bgmsr msr) /\
+    (strict = true -> bits w 6 3 = 3).
+Proof. exact SaneME_platform_failclosed. Qed.
+Print Assumptions C05_SaneME_platform_failclosed.
+
+(** a correctly provisioned ME is accepted whatever else is visible on the platform *)
+Theorem C05_SaneME_platform_accepts : forall strict v pre d post ee msr w,
+  no_me pre -> is_me d = true -> hfsts_word 6 d = Some w ->
+  ~ me_disqualified v (decode_hfsts6 w) (decode_bgmsr msr) -> (strict = true -> bits w 6 3 = 3) ->
+  sane_me_plat strict v (pre ++ d :: post) ee msr = good.
+Proof. exact SaneME_platform_accepts. Qed.
+Print Assumptions C05_SaneME_platform_accepts.
+
+(** no ME device, or an ME device that cannot be read: never a success *)
+Theorem C05_SaneME_platform_no_status : forall strict v msr,
+  (forall l ee, no_me l -> sane_me_plat strict v l ee msr = bad) /\
+  (forall pre d post ee, no_me pre -> is_me d = true -> hfsts_word 6 d = None ->
+     sane_me_plat strict v (pre ++ d :: post) ee msr = bad).
+Proof. exact SaneME_platform_no_status. Qed.
+Print Assumptions C05_SaneME_platform_no_status.
+
+(** ValidateMEAgainstManifests fed from the platform is the comparison with the first ME
+    device's HFSTS6 ... *)
+Theorem C05_ValidateME_platform_first : forall v pre d post ee b k i, no_me pre -> is_me d = true ->
+  validate_me_plat v (pre ++ d :: post) ee b k i =
+  match hfsts_word 6 d with Some w => validate_me v (decode_hfsts6 w) b k i | None => bad end.
+Proof. exact ValidateME_platform_first. Qed.
+Print Assumptions C05_ValidateME_platform_first.
+
+(** ... so a success is a success for that device.  PARTIAL: the platform has an ME device. *)
+Theorem C05_ValidateME_platform_sound_partial : forall v l ee b k i,
+  (exists x, In x l /\ is_me x = true) ->
+  validate_me_plat v l ee b k i = good ->
+  exists pre d post w, l = pre ++ d :: post /\ no_me pre /\ is_me d = true /\
+    hfsts_word 6 d = Some w /\ validate_me v (decode_hfsts6 w) b k i = good.
+Proof. exact ValidateME_platform_sound_partial. Qed.
+Print Assumptions C05_ValidateME_platform_sound_partial.
+
+(** finding C05-HFSTS-no-ME-device: without ME device the status readers make up an all-zero
+    status instead of failing, and manifests with SVNs and key manifest id 0 "agree" with it *)
+Theorem C05_HFSTS_no_device_failclosed_refuted :
+  exists l, no_me l /\ read_hfsts 6 l false = HWord 0 /\ read_hfsts 1 l false = HWord 0 /\
+    validate_me_plat 2 l false 0 0 0 = good /\ test_validate_me_plat 2 l false 0 0 0 = pass.
+Proof. exact HFSTS_no_device_failclosed_refuted. Qed.
+Print Assumptions C05_HFSTS_no_device_failclosed_refuted.
+
+(** the pkg/test entry points pass exactly when the verdict fed from the platform succeeds,
+    and never panic *)
+Theorem C05_TestEntryPoints_pass_iff : forall strict v l ee msr b k i,
+  (test_sane_me_plat strict v l ee msr = pass <-> sane_me_plat strict v l ee msr = good) /\
+  (test_validate_me_plat v l ee b k i = pass <-> validate_me_plat v l ee b k i = good) /\
+  test_sane_me_plat strict v l ee msr <> VPanic /\ test_validate_me_plat v l ee b k i <> VPanic.
+Proof. exact TestEntryPoints_pass_iff. Qed.
+Print Assumptions C05_TestEntryPoints_pass_iff.
+
 (** ValidateMEAgainstManifests, Boot Guard 1.0 and CBnT: exact *)
 Theorem C05_ValidateME_exact : forall v f bpmsvn kmsvn kmid,
   (v = 1 -> (validate_me v f bpmsvn kmsvn kmid = good <->
@@ -599,3 +704,13 @@ Proof.
   - intros _. left. reflexivity.
   - intros _. exists 64. split; reflexivity.
 Qed.
+
+(** host bridge, the ME 00:16.0 reporting "Boot Guard disabled", and a look-alike 03:10.0 whose
+    dword at 0x6c decodes to a sane status: rejected; with the register contents swapped: accepted *)
+Example C05_ex_two_candidates :
+  sane_me_plat true 2 [ex_host; ex_me_bad; ex_vf_sane] false 4294967376 = bad /\
+  get_hfsts6 [ex_host; ex_me_bad; ex_vf_sane] false = Some (1073742024 + 268435456) /\
+  get_hfsts1 [ex_host; ex_me_bad; ex_vf_sane] false = Some 1 /\
+  sane_me_plat true 2 [ex_host; mkdev 0 22 0 (p_cfg ex_vf_sane); mkdev 3 16 0 (p_cfg ex_me_bad)] false 4294967376 = good /\
+  no_me [ex_host] /\ is_me ex_me_bad = true /\ is_me ex_vf_sane = true.
+Proof. exact ex_two_candidates. Qed.
